@@ -248,3 +248,20 @@ Proof.
   replace (blen a + blen w - blen a) with (blen w) by lia.
   rewrite btake_app_le by lia. apply btake_all. lia.
 Qed.
+
+(* ---------- re.match of `body\Z` (Model/C10_Regex.v) ---------- *)
+Require Import OV.Model.C10_Regex.
+
+Lemma re_match_end_sound r s e g :
+  re_match_end r true s = Some (e, g) -> mt r s 0 [] [] e g.
+Proof.
+  unfold re_match_end. intros H. apply m_sound in H.
+  destruct H as [s' [p' [g' [Hm Hk]]]]. destruct s' as [|c t]; [|discriminate].
+  injection Hk as -> ->. exact Hm.
+Qed.
+
+Lemma re_match_end_complete r s e g :
+  mt r s 0 [] [] e g -> re_match_end r true s <> None.
+Proof.
+  unfold re_match_end. intros H. eapply m_complete; [exact H|discriminate].
+Qed.
